@@ -118,9 +118,12 @@ impl RBig {
     /// This method only make sense for canonicalized ratios.
     #[inline]
     pub fn is_simpler_than(&self, other: &Self) -> bool {
-        (self.denominator() < other.denominator()) // first compare denominator
-            && self.numerator().abs_cmp(other.numerator()).is_le() // then compare numerator
-            && self.sign() > other.sign() // then compare sign
+        // first compare denominator, then the magnitude of the numerator, then the sign
+        self.denominator()
+            .cmp(other.denominator())
+            .then_with(|| self.numerator().abs_cmp(other.numerator()))
+            .then_with(|| other.sign().cmp(&self.sign()))
+            .is_lt()
     }
 
     /// Find the simplest rational number in the rounding interval of the [f32] number.
